@@ -11,8 +11,9 @@ Real MIR of the textual layers is executed over symbolic UTF-8 strings:
   tok-whole  the whole tokeniser on every string of <= n bytes (n small), with
              the token vectors of a sample of paths compared with the native
              tokeniser (model validation).
-  tokens     parse() on symbolic token vectors is C05's run; its panic
-             obligations are reported there and counted here.
+  conditions parse() (real MIR) on all token vectors of length <= 4/5: no panic;
+             a sample of its paths is rendered to condition text and the whole
+             rule is loaded natively in catch_unwind (longer vectors: C05's run).
   shapes     [auxiliary, concrete - not solver-decided] every YAML value shape
              in every position of a rule is loaded natively in catch_unwind.
 serde_yaml / libyaml themselves are not encoded (outside the claim).
@@ -46,7 +47,7 @@ def main():
     ]
     ck.functions |= {'identifier::<String as IdentifierParser>::into_identifier', 'tokeniser::<String as Tokeniser>::tokenise',
                      'tokeniser::consume_while', 'tokeniser::match_ahead', 'tokeniser closures'}
-    units = [('ident', N, W, 'plain'), ('tok-step', N, W), ('tok-whole', nw, min(W, 2)), ('shapes',)]
+    units = [('ident', N, W, 'plain'), ('tok-step', N, W), ('tok-whole', nw, min(W, 2)), ('shapes',)] + [('conditions', n) for n in range(0, (4 if quick else 5) + 1)]
     ck.run_units(units, run_unit)
     ck.finish('symbolic execution of the textual layers over symbolic UTF-8 strings; every path must return Ok/Err')
 
@@ -95,7 +96,17 @@ def run_unit(ck, unit):
                                        'input': b.decode('utf-8', 'replace'), 'native': n, 'mir_panic': msg,
                                        'request': {'cmd': 'ident', 's': list(b)}})
                 if 'panic' not in n:
-                    return ('spurious', 'native into_identifier(%r) does not panic' % b)
+                    # the model of to_lowercase is exact on ASCII only: the solver's witness may use a character whose real
+                    # lower-case form has another length than the one it assumed.  Search the neighbourhood natively: the same
+                    # text with each non-ASCII character replaced by the characters whose lower-casing changes the UTF-8 length.
+                    alt = neighbour_panic(br, b)
+                    if alt is None:
+                        return ('spurious', 'native into_identifier(%r) does not panic' % b)
+                    b, n = alt
+                    path = ck.write_replay('ident_' + safe(site[-12:] + '_' + b.hex()), {'layer': 'into_identifier', 'input_bytes': list(b),
+                                           'input': b.decode('utf-8', 'replace'), 'native': n, 'mir_panic': msg,
+                                           'found_by': 'native search around the solver witness (special-casing characters)',
+                                           'request': {'cmd': 'ident', 's': list(b)}})
                 ck.replays_ok += 1
                 key = 'ident-panic:lone-quote'
                 kf = ck.known_match(key)
@@ -179,7 +190,41 @@ def run_unit(ck, unit):
     if kind == 'shapes':
         shapes_sweep(ck, br)
         return
+    if kind == 'conditions':
+        import C05
+        C05.conditions_unit(ck, prog, unit[1])
+        return
     raise ValueError(unit)
+
+
+_SPECIAL = None
+
+
+def special_chars():
+    """characters whose lower-case form has a different UTF-8 length"""
+    global _SPECIAL
+    if _SPECIAL is None:
+        _SPECIAL = [chr(cp) for cp in range(0x80, 0x3000) if len(chr(cp).lower().encode('utf-8')) != len(chr(cp).encode('utf-8'))][:40]
+    return _SPECIAL
+
+
+def neighbour_panic(br, b):
+    try:
+        txt = b.decode('utf-8')
+    except UnicodeDecodeError:
+        return None
+    pos = [i for i, c in enumerate(txt) if ord(c) >= 0x80]
+    tried = 0
+    for i in pos:
+        for sc in special_chars():
+            cand = (txt[:i] + sc + txt[i + 1:]).encode('utf-8')
+            tried += 1
+            n = br.call(cmd='ident', s=list(cand))
+            if 'panic' in n:
+                return cand, n
+            if tried > 200:
+                return None
+    return None
 
 
 def iter_position(fr):
